@@ -59,6 +59,10 @@ def cases(tier, seed, args):
         out.append(dict(t='weightx', L=[int(rng.integers(1, 4)) for _ in range(nl)], K=int(rng.integers(1, 5)), N=int(rng.integers(1, 7)),
                         wca=w_, wca_type='int' if isinstance(w_, int) else ('list' if isinstance(w_, list) else 'tuple'), has_sal=bool(i % 2) or integ, integration=integ,
                         seed=int(rng.integers(1 << 30))))
+    for i in range(18 if q else 180):
+        out.append(dict(t='gaussx', gtype=['full', 'diagonal', 'spherical'][i % 3], D=int(rng.integers(1, 4)), N=int(rng.integers(2, 7)),
+                        offset=[0, 1000000, 10000000, -3000000][(i // 3) % 4], saliency=bool(i % 2), mixture=bool(i % 4 == 3),
+                        seed=int(rng.integers(1 << 30))))
     for i in range(14 if q else 140):
         kind = ml.KINDS[i % 7]
         out.append(dict(t='repeat', kind=kind, K=2, D=int(rng.integers(2, 4)), N=int(rng.integers(6, 10)),
@@ -200,6 +204,8 @@ def _single(case):
     elif dist == 'watson':
         # history: another trainer with the default limit has been used in this process before
         call(ComplexWatsonTrainer().fit, y, saliency=sal)
+        yo = rng.normal(size=(6, D + 1)) + 1j * rng.normal(size=(6, D + 1))
+        call(ComplexWatsonTrainer().fit, yo)             # ... and one with another feature dimension
         m, exc = call(ComplexWatsonTrainer(max_concentration=case['maxc']).fit, y, saliency=sal)
         comp, z, zc = 'watson', flatz(ml.unit(y)), True
     elif dist == 'vmf':
@@ -275,6 +281,8 @@ def _weightx(case):
                       affiliation=aff8 / 8.0, saliency=(sal if sal is not None else np.ones((F, N))).astype(float), hermitize=True,
                       covariance_norm='eigenvalue', eigenvalue_floor=1e-10, covariance_type='spherical', fixed_covariance=None,
                       weight_constant_axis=tuple(wca), spatial_weight=1., spectral_weight=1.)
+        if m is None and exc in ('ValueError', 'LinAlgError', 'AssertionError'):
+            return []        # the component estimators rejected the tiny lattice sample; only the weight rule is tested here
         out = None if m is None else np.asarray(m.weight, dtype=float)
     else:
         out, exc = call(mmu.estimate_mixture_weight, aff8 / 8.0, None if sal is None else sal.astype(float), arg)
@@ -283,6 +291,74 @@ def _weightx(case):
                  sal=flati(sal) if sal is not None else dict(shape=[], data=[]), wca=wl, wca_int=case.get('wca_type') == 'int',
                  integration=case['integration'], exc=exc, out=flatr(out) if out is not None else dict(shape=[], data=[]),
                  fp=f't=weightx;wca={wca};sal={sal is not None};integration={case["integration"]}', key=f'wx:{case["seed"]}')]
+
+
+def _exactly_singular(u, g, gtype):
+    """exact (integer) test: is the weighted covariance sum g (u-m)(u-m)^T singular / zero?"""
+    from fractions import Fraction
+    u = [[int(v) for v in row] for row in u]
+    g = [int(v) for v in g]
+    N, D = len(u), len(u[0])
+    G = sum(g)
+    if G == 0:
+        return True
+    S1 = [sum(g[n] * u[n][a] for n in range(N)) for a in range(D)]
+    C = [[sum(g[n] * u[n][a] * u[n][b] for n in range(N)) * G - S1[a] * S1[b] for b in range(D)] for a in range(D)]
+    if gtype == 'diagonal':
+        return any(C[a][a] == 0 for a in range(D))
+    if gtype == 'spherical':
+        return sum(C[a][a] for a in range(D)) == 0
+    M = [[Fraction(x) for x in row] for row in C]
+    det = Fraction(1)
+    for c in range(D):
+        piv = next((r for r in range(c, D) if M[r][c] != 0), None)
+        if piv is None:
+            return True
+        if piv != c:
+            M[c], M[piv] = M[piv], M[c]
+            det = -det
+        det *= M[c][c]
+        for r in range(c + 1, D):
+            f = M[r][c] / M[c][c]
+            M[r] = [M[r][k] - f * M[c][k] for k in range(D)]
+    return det == 0
+
+
+def _gaussx(case):
+    """exact weighted Gaussian moments; a common offset of the data must not matter"""
+    rng = np.random.default_rng(case['seed'])
+    D, N = case['D'], case['N']
+    u = rng.integers(-3, 4, size=(N, D))
+    g8 = rng.integers(1, 9, size=N)                      # weights in units of 1/8
+    if case['saliency']:
+        g8 = g8 * rng.integers(1, 3, size=N)
+    c = case['offset']
+    x = (u + c).astype(float)
+    if case['mixture']:
+        # through the GMM M-step: affiliation gamma = g/8 for class 0 and 1 - g/8 ... (class 0 is checked)
+        from pb_bss.distribution.gmm import GMMTrainer
+        g8 = np.minimum(g8, 7)
+        aff = np.stack([g8 / 8.0, 1 - g8 / 8.0])
+        m, exc = call(GMMTrainer()._m_step, x, affiliation=aff, saliency=np.ones(N), weight_constant_axis=(-1,),
+                      covariance_type=case['gtype'], fixed_covariance=None)
+        if m is None and exc in ('ValueError', 'LinAlgError') and (
+                _exactly_singular(u, g8, case['gtype']) or _exactly_singular(u, 8 - g8, case['gtype'])):
+            return []        # singular class covariance of the tiny lattice sample: explicit rejection, not an estimator issue
+        mean = None if m is None else m.gaussian.mean[0]
+        cov = None if m is None else m.gaussian.covariance[0]
+    else:
+        m, exc = call(GaussianTrainer().fit, x, saliency=g8 / 8.0, covariance_type=case['gtype'])
+        mean = None if m is None else m.mean
+        cov = None if m is None else m.covariance
+    if m is None and exc in ('ValueError', 'LinAlgError') and _exactly_singular(u, g8, case['gtype']):
+        return []            # the exact weighted covariance of this lattice sample is singular: explicit rejection is right
+    rec = dict(kind='gaussx', u=u.tolist(), g=[int(v) for v in g8], gtype=case['gtype'], exc=exc, mean_c=[], cov=[],
+               fp=f't=gaussx;gtype={case["gtype"]};offset={c};mixture={case["mixture"]}', key=f'gx:{case["seed"]}')
+    if m is not None:
+        rec['mean_c'] = [enc.rat(float(v) - c) for v in np.atleast_1d(mean)]
+        cv = np.asarray(cov, dtype=float)
+        rec['cov'] = enc.arat(cv) if cv.ndim else [enc.rat(float(cv))]
+    return [rec]
 
 
 def _repeat(case):
@@ -322,4 +398,6 @@ def run_case(case):
         return _weightx(case)
     if t == 'repeat':
         return _repeat(case)
+    if t == 'gaussx':
+        return _gaussx(case)
     raise ValueError(t)
